@@ -112,6 +112,14 @@ PROPS = {
                      "by operations on other handles, and after destroying every handle both tables are back to their initial "
                      "sizes; ASan reports use-after-free / double free; non-trivial = at least one apply in the history",
                 assumptions=PROOF_ASSUME),
+    "C13": dict(level="proof", kinds=[("parse", 1)], n=dict(quick=12000, thorough=400000, search=12000),
+                rule="texts: valid files with adversarial names, ranked tree automata, word automata, byte- and token-level "
+                     "mutations of them, keyword soups, random bytes (incl. NUL, 0x80, 0xff, VT, FF, CR), shipped small files and "
+                     "their mutations; TimbukParser::ParseString is compared with the model parser (accept / throw, the whole "
+                     "description, the serialisation byte for byte, parse∘serialise = id); the four loaders must throw or "
+                     "load→dump→load→dump to the same rules and final states under the same names; the watchdog and the "
+                     "sanitizers watch for hangs and memory errors; non-trivial = the text is accepted by the parser",
+                assumptions=PROOF_ASSUME),
     "C14": dict(level="proof", kinds=[("rename", 1)], n=dict(quick=3000, thorough=60000, search=4000),
                 rule="ReindexStates (functor / functor without final states / into an existing destination / weak translator / "
                      "fresh translator), CollapseStates, TranslateSymbols with injective, merging, identity and sparse maps, "
@@ -159,6 +167,8 @@ def nontrivial(prop, r):
         return "emptyA=0 emptyC=0" in v
     if prop == "C14":
         return "inj=0" in v
+    if prop == "C13":
+        return "accepted=1" in v
     if prop == "C07":
         return "emptyA=0" in v or c.startswith("bddinclall")
     if prop == "C08":
